@@ -7,12 +7,60 @@ theories/Base/Res.vos theories/Base/Res.vok theories/Base/Res.required_vos: theo
 theories/Base/Sig.vo theories/Base/Sig.glob theories/Base/Sig.v.beautified theories/Base/Sig.required_vo: theories/Base/Sig.v theories/Base/Bytes.vo
 theories/Base/Sig.vio: theories/Base/Sig.v theories/Base/Bytes.vio
 theories/Base/Sig.vos theories/Base/Sig.vok theories/Base/Sig.required_vos: theories/Base/Sig.v theories/Base/Bytes.vos
+theories/Base/SigParse.vo theories/Base/SigParse.glob theories/Base/SigParse.v.beautified theories/Base/SigParse.required_vo: theories/Base/SigParse.v theories/Base/Bytes.vo theories/Base/Sig.vo
+theories/Base/SigParse.vio: theories/Base/SigParse.v theories/Base/Bytes.vio theories/Base/Sig.vio
+theories/Base/SigParse.vos theories/Base/SigParse.vok theories/Base/SigParse.required_vos: theories/Base/SigParse.v theories/Base/Bytes.vos theories/Base/Sig.vos
+theories/Base/Utf8.vo theories/Base/Utf8.glob theories/Base/Utf8.v.beautified theories/Base/Utf8.required_vo: theories/Base/Utf8.v theories/Base/Bytes.vo
+theories/Base/Utf8.vio: theories/Base/Utf8.v theories/Base/Bytes.vio
+theories/Base/Utf8.vos theories/Base/Utf8.vok theories/Base/Utf8.required_vos: theories/Base/Utf8.v theories/Base/Bytes.vos
 theories/Base/Winnow.vo theories/Base/Winnow.glob theories/Base/Winnow.v.beautified theories/Base/Winnow.required_vo: theories/Base/Winnow.v theories/Base/Bytes.vo
 theories/Base/Winnow.vio: theories/Base/Winnow.v theories/Base/Bytes.vio
 theories/Base/Winnow.vos theories/Base/Winnow.vok theories/Base/Winnow.required_vos: theories/Base/Winnow.v theories/Base/Bytes.vos
 theories/Base/WinnowFacts.vo theories/Base/WinnowFacts.glob theories/Base/WinnowFacts.v.beautified theories/Base/WinnowFacts.required_vo: theories/Base/WinnowFacts.v theories/Base/Bytes.vo theories/Base/Winnow.vo
 theories/Base/WinnowFacts.vio: theories/Base/WinnowFacts.v theories/Base/Bytes.vio theories/Base/Winnow.vio
 theories/Base/WinnowFacts.vos theories/Base/WinnowFacts.vok theories/Base/WinnowFacts.required_vos: theories/Base/WinnowFacts.v theories/Base/Bytes.vos theories/Base/Winnow.vos
+theories/C06/Classes.vo theories/C06/Classes.glob theories/C06/Classes.v.beautified theories/C06/Classes.required_vo: theories/C06/Classes.v theories/Base/Bytes.vo theories/Base/Res.vo theories/Base/Sig.vo theories/C06/Model.vo
+theories/C06/Classes.vio: theories/C06/Classes.v theories/Base/Bytes.vio theories/Base/Res.vio theories/Base/Sig.vio theories/C06/Model.vio
+theories/C06/Classes.vos theories/C06/Classes.vok theories/C06/Classes.required_vos: theories/C06/Classes.v theories/Base/Bytes.vos theories/Base/Res.vos theories/Base/Sig.vos theories/C06/Model.vos
+theories/C06/Model.vo theories/C06/Model.glob theories/C06/Model.v.beautified theories/C06/Model.required_vo: theories/C06/Model.v theories/Base/Bytes.vo theories/Base/Res.vo
+theories/C06/Model.vio: theories/C06/Model.v theories/Base/Bytes.vio theories/Base/Res.vio
+theories/C06/Model.vos theories/C06/Model.vok theories/C06/Model.required_vos: theories/C06/Model.v theories/Base/Bytes.vos theories/Base/Res.vos
+theories/C06/Run.vo theories/C06/Run.glob theories/C06/Run.v.beautified theories/C06/Run.required_vo: theories/C06/Run.v theories/Base/Bytes.vo theories/Base/Res.vo theories/Base/Sig.vo theories/C06/Model.vo theories/C06/Spec.vo theories/C06/Classes.vo
+theories/C06/Run.vio: theories/C06/Run.v theories/Base/Bytes.vio theories/Base/Res.vio theories/Base/Sig.vio theories/C06/Model.vio theories/C06/Spec.vio theories/C06/Classes.vio
+theories/C06/Run.vos theories/C06/Run.vok theories/C06/Run.required_vos: theories/C06/Run.v theories/Base/Bytes.vos theories/Base/Res.vos theories/Base/Sig.vos theories/C06/Model.vos theories/C06/Spec.vos theories/C06/Classes.vos
+theories/C06/Spec.vo theories/C06/Spec.glob theories/C06/Spec.v.beautified theories/C06/Spec.required_vo: theories/C06/Spec.v theories/Base/Bytes.vo
+theories/C06/Spec.vio: theories/C06/Spec.v theories/Base/Bytes.vio
+theories/C06/Spec.vos theories/C06/Spec.vok theories/C06/Spec.required_vos: theories/C06/Spec.v theories/Base/Bytes.vos
+theories/C06/SpecFacts.vo theories/C06/SpecFacts.glob theories/C06/SpecFacts.v.beautified theories/C06/SpecFacts.required_vo: theories/C06/SpecFacts.v theories/Base/Bytes.vo theories/C06/Spec.vo
+theories/C06/SpecFacts.vio: theories/C06/SpecFacts.v theories/Base/Bytes.vio theories/C06/Spec.vio
+theories/C06/SpecFacts.vos theories/C06/SpecFacts.vok theories/C06/SpecFacts.required_vos: theories/C06/SpecFacts.v theories/Base/Bytes.vos theories/C06/Spec.vos
+theories/C08/Algebra.vo theories/C08/Algebra.glob theories/C08/Algebra.v.beautified theories/C08/Algebra.required_vo: theories/C08/Algebra.v theories/Base/Bytes.vo theories/C08/Model.vo theories/C08/Spec.vo
+theories/C08/Algebra.vio: theories/C08/Algebra.v theories/Base/Bytes.vio theories/C08/Model.vio theories/C08/Spec.vio
+theories/C08/Algebra.vos theories/C08/Algebra.vok theories/C08/Algebra.required_vos: theories/C08/Algebra.v theories/Base/Bytes.vos theories/C08/Model.vos theories/C08/Spec.vos
+theories/C08/Clone.vo theories/C08/Clone.glob theories/C08/Clone.v.beautified theories/C08/Clone.required_vo: theories/C08/Clone.v theories/Base/Bytes.vo theories/Base/Res.vo theories/Base/Sig.vo theories/C08/Model.vo theories/C08/Spec.vo theories/C08/Algebra.vo theories/C08/SigFacts.vo theories/C08/ValueFacts.vo theories/C08/Order.vo
+theories/C08/Clone.vio: theories/C08/Clone.v theories/Base/Bytes.vio theories/Base/Res.vio theories/Base/Sig.vio theories/C08/Model.vio theories/C08/Spec.vio theories/C08/Algebra.vio theories/C08/SigFacts.vio theories/C08/ValueFacts.vio theories/C08/Order.vio
+theories/C08/Clone.vos theories/C08/Clone.vok theories/C08/Clone.required_vos: theories/C08/Clone.v theories/Base/Bytes.vos theories/Base/Res.vos theories/Base/Sig.vos theories/C08/Model.vos theories/C08/Spec.vos theories/C08/Algebra.vos theories/C08/SigFacts.vos theories/C08/ValueFacts.vos theories/C08/Order.vos
+theories/C08/Model.vo theories/C08/Model.glob theories/C08/Model.v.beautified theories/C08/Model.required_vo: theories/C08/Model.v theories/Base/Bytes.vo theories/Base/Res.vo theories/Base/Sig.vo
+theories/C08/Model.vio: theories/C08/Model.v theories/Base/Bytes.vio theories/Base/Res.vio theories/Base/Sig.vio
+theories/C08/Model.vos theories/C08/Model.vok theories/C08/Model.required_vos: theories/C08/Model.v theories/Base/Bytes.vos theories/Base/Res.vos theories/Base/Sig.vos
+theories/C08/Order.vo theories/C08/Order.glob theories/C08/Order.v.beautified theories/C08/Order.required_vo: theories/C08/Order.v theories/Base/Bytes.vo theories/Base/Res.vo theories/Base/Sig.vo theories/Base/WinnowFacts.vo theories/C08/Model.vo theories/C08/Spec.vo theories/C08/Algebra.vo theories/C08/SigFacts.vo theories/C08/ValueFacts.vo
+theories/C08/Order.vio: theories/C08/Order.v theories/Base/Bytes.vio theories/Base/Res.vio theories/Base/Sig.vio theories/Base/WinnowFacts.vio theories/C08/Model.vio theories/C08/Spec.vio theories/C08/Algebra.vio theories/C08/SigFacts.vio theories/C08/ValueFacts.vio
+theories/C08/Order.vos theories/C08/Order.vok theories/C08/Order.required_vos: theories/C08/Order.v theories/Base/Bytes.vos theories/Base/Res.vos theories/Base/Sig.vos theories/Base/WinnowFacts.vos theories/C08/Model.vos theories/C08/Spec.vos theories/C08/Algebra.vos theories/C08/SigFacts.vos theories/C08/ValueFacts.vos
+theories/C08/Proofs.vo theories/C08/Proofs.glob theories/C08/Proofs.v.beautified theories/C08/Proofs.required_vo: theories/C08/Proofs.v theories/Base/Bytes.vo theories/Base/Res.vo theories/Base/Sig.vo theories/C08/Model.vo theories/C08/Spec.vo
+theories/C08/Proofs.vio: theories/C08/Proofs.v theories/Base/Bytes.vio theories/Base/Res.vio theories/Base/Sig.vio theories/C08/Model.vio theories/C08/Spec.vio
+theories/C08/Proofs.vos theories/C08/Proofs.vok theories/C08/Proofs.required_vos: theories/C08/Proofs.v theories/Base/Bytes.vos theories/Base/Res.vos theories/Base/Sig.vos theories/C08/Model.vos theories/C08/Spec.vos
+theories/C08/Run.vo theories/C08/Run.glob theories/C08/Run.v.beautified theories/C08/Run.required_vo: theories/C08/Run.v theories/Base/Bytes.vo theories/Base/Res.vo theories/Base/Sig.vo theories/C08/Model.vo theories/C08/Spec.vo
+theories/C08/Run.vio: theories/C08/Run.v theories/Base/Bytes.vio theories/Base/Res.vio theories/Base/Sig.vio theories/C08/Model.vio theories/C08/Spec.vio
+theories/C08/Run.vos theories/C08/Run.vok theories/C08/Run.required_vos: theories/C08/Run.v theories/Base/Bytes.vos theories/Base/Res.vos theories/Base/Sig.vos theories/C08/Model.vos theories/C08/Spec.vos
+theories/C08/SigFacts.vo theories/C08/SigFacts.glob theories/C08/SigFacts.v.beautified theories/C08/SigFacts.required_vo: theories/C08/SigFacts.v theories/Base/Bytes.vo theories/Base/Sig.vo theories/C08/Model.vo theories/C08/Spec.vo theories/C08/Algebra.vo
+theories/C08/SigFacts.vio: theories/C08/SigFacts.v theories/Base/Bytes.vio theories/Base/Sig.vio theories/C08/Model.vio theories/C08/Spec.vio theories/C08/Algebra.vio
+theories/C08/SigFacts.vos theories/C08/SigFacts.vok theories/C08/SigFacts.required_vos: theories/C08/SigFacts.v theories/Base/Bytes.vos theories/Base/Sig.vos theories/C08/Model.vos theories/C08/Spec.vos theories/C08/Algebra.vos
+theories/C08/Spec.vo theories/C08/Spec.glob theories/C08/Spec.v.beautified theories/C08/Spec.required_vo: theories/C08/Spec.v theories/Base/Bytes.vo theories/Base/Res.vo theories/Base/Sig.vo theories/C08/Model.vo
+theories/C08/Spec.vio: theories/C08/Spec.v theories/Base/Bytes.vio theories/Base/Res.vio theories/Base/Sig.vio theories/C08/Model.vio
+theories/C08/Spec.vos theories/C08/Spec.vok theories/C08/Spec.required_vos: theories/C08/Spec.v theories/Base/Bytes.vos theories/Base/Res.vos theories/Base/Sig.vos theories/C08/Model.vos
+theories/C08/ValueFacts.vo theories/C08/ValueFacts.glob theories/C08/ValueFacts.v.beautified theories/C08/ValueFacts.required_vo: theories/C08/ValueFacts.v theories/Base/Bytes.vo theories/Base/Res.vo theories/Base/Sig.vo theories/Base/WinnowFacts.vo theories/C08/Model.vo theories/C08/Spec.vo theories/C08/Algebra.vo theories/C08/SigFacts.vo
+theories/C08/ValueFacts.vio: theories/C08/ValueFacts.v theories/Base/Bytes.vio theories/Base/Res.vio theories/Base/Sig.vio theories/Base/WinnowFacts.vio theories/C08/Model.vio theories/C08/Spec.vio theories/C08/Algebra.vio theories/C08/SigFacts.vio
+theories/C08/ValueFacts.vos theories/C08/ValueFacts.vok theories/C08/ValueFacts.required_vos: theories/C08/ValueFacts.v theories/Base/Bytes.vos theories/Base/Res.vos theories/Base/Sig.vos theories/Base/WinnowFacts.vos theories/C08/Model.vos theories/C08/Spec.vos theories/C08/Algebra.vos theories/C08/SigFacts.vos
 theories/C10/Model.vo theories/C10/Model.glob theories/C10/Model.v.beautified theories/C10/Model.required_vo: theories/C10/Model.v theories/Base/Bytes.vo theories/Base/Winnow.vo
 theories/C10/Model.vio: theories/C10/Model.v theories/Base/Bytes.vio theories/Base/Winnow.vio
 theories/C10/Model.vos theories/C10/Model.vok theories/C10/Model.required_vos: theories/C10/Model.v theories/Base/Bytes.vos theories/Base/Winnow.vos
@@ -25,6 +73,192 @@ theories/C10/Run.vos theories/C10/Run.vok theories/C10/Run.required_vos: theorie
 theories/C10/Spec.vo theories/C10/Spec.glob theories/C10/Spec.v.beautified theories/C10/Spec.required_vo: theories/C10/Spec.v theories/Base/Bytes.vo
 theories/C10/Spec.vio: theories/C10/Spec.v theories/Base/Bytes.vio
 theories/C10/Spec.vos theories/C10/Spec.vok theories/C10/Spec.required_vos: theories/C10/Spec.v theories/Base/Bytes.vos
+theories/C11/Body.vo theories/C11/Body.glob theories/C11/Body.v.beautified theories/C11/Body.required_vo: theories/C11/Body.v theories/Base/Bytes.vo theories/Base/Res.vo theories/Base/Sig.vo theories/C11/Model.vo
+theories/C11/Body.vio: theories/C11/Body.v theories/Base/Bytes.vio theories/Base/Res.vio theories/Base/Sig.vio theories/C11/Model.vio
+theories/C11/Body.vos theories/C11/Body.vok theories/C11/Body.required_vos: theories/C11/Body.v theories/Base/Bytes.vos theories/Base/Res.vos theories/Base/Sig.vos theories/C11/Model.vos
+theories/C11/Model.vo theories/C11/Model.glob theories/C11/Model.v.beautified theories/C11/Model.required_vo: theories/C11/Model.v theories/Base/Bytes.vo theories/Base/Res.vo theories/Base/Sig.vo theories/C10/Model.vo
+theories/C11/Model.vio: theories/C11/Model.v theories/Base/Bytes.vio theories/Base/Res.vio theories/Base/Sig.vio theories/C10/Model.vio
+theories/C11/Model.vos theories/C11/Model.vok theories/C11/Model.required_vos: theories/C11/Model.v theories/Base/Bytes.vos theories/Base/Res.vos theories/Base/Sig.vos theories/C10/Model.vos
+theories/C11/Run.vo theories/C11/Run.glob theories/C11/Run.v.beautified theories/C11/Run.required_vo: theories/C11/Run.v theories/Base/Bytes.vo theories/Base/Res.vo theories/Base/Sig.vo theories/C10/Model.vo theories/C10/Spec.vo theories/C11/Model.vo theories/C11/Spec.vo theories/C11/Body.vo
+theories/C11/Run.vio: theories/C11/Run.v theories/Base/Bytes.vio theories/Base/Res.vio theories/Base/Sig.vio theories/C10/Model.vio theories/C10/Spec.vio theories/C11/Model.vio theories/C11/Spec.vio theories/C11/Body.vio
+theories/C11/Run.vos theories/C11/Run.vok theories/C11/Run.required_vos: theories/C11/Run.v theories/Base/Bytes.vos theories/Base/Res.vos theories/Base/Sig.vos theories/C10/Model.vos theories/C10/Spec.vos theories/C11/Model.vos theories/C11/Spec.vos theories/C11/Body.vos
+theories/C11/Spec.vo theories/C11/Spec.glob theories/C11/Spec.v.beautified theories/C11/Spec.required_vo: theories/C11/Spec.v theories/Base/Bytes.vo theories/Base/Res.vo theories/Base/Sig.vo theories/C10/Spec.vo theories/C11/Model.vo
+theories/C11/Spec.vio: theories/C11/Spec.v theories/Base/Bytes.vio theories/Base/Res.vio theories/Base/Sig.vio theories/C10/Spec.vio theories/C11/Model.vio
+theories/C11/Spec.vos theories/C11/Spec.vok theories/C11/Spec.required_vos: theories/C11/Spec.v theories/Base/Bytes.vos theories/Base/Res.vos theories/Base/Sig.vos theories/C10/Spec.vos theories/C11/Model.vos
+theories/C14/Model.vo theories/C14/Model.glob theories/C14/Model.v.beautified theories/C14/Model.required_vo: theories/C14/Model.v theories/Base/Bytes.vo theories/Base/Res.vo
+theories/C14/Model.vio: theories/C14/Model.v theories/Base/Bytes.vio theories/Base/Res.vio
+theories/C14/Model.vos theories/C14/Model.vok theories/C14/Model.required_vos: theories/C14/Model.v theories/Base/Bytes.vos theories/Base/Res.vos
+theories/C14/Proofs.vo theories/C14/Proofs.glob theories/C14/Proofs.v.beautified theories/C14/Proofs.required_vo: theories/C14/Proofs.v theories/Base/Bytes.vo theories/Base/Res.vo theories/C14/Model.vo theories/C14/Spec.vo
+theories/C14/Proofs.vio: theories/C14/Proofs.v theories/Base/Bytes.vio theories/Base/Res.vio theories/C14/Model.vio theories/C14/Spec.vio
+theories/C14/Proofs.vos theories/C14/Proofs.vok theories/C14/Proofs.required_vos: theories/C14/Proofs.v theories/Base/Bytes.vos theories/Base/Res.vos theories/C14/Model.vos theories/C14/Spec.vos
+theories/C14/Run.vo theories/C14/Run.glob theories/C14/Run.v.beautified theories/C14/Run.required_vo: theories/C14/Run.v theories/Base/Bytes.vo theories/Base/Res.vo theories/C14/Model.vo theories/C14/Spec.vo
+theories/C14/Run.vio: theories/C14/Run.v theories/Base/Bytes.vio theories/Base/Res.vio theories/C14/Model.vio theories/C14/Spec.vio
+theories/C14/Run.vos theories/C14/Run.vok theories/C14/Run.required_vos: theories/C14/Run.v theories/Base/Bytes.vos theories/Base/Res.vos theories/C14/Model.vos theories/C14/Spec.vos
+theories/C14/Spec.vo theories/C14/Spec.glob theories/C14/Spec.v.beautified theories/C14/Spec.required_vo: theories/C14/Spec.v theories/Base/Bytes.vo theories/Base/Res.vo theories/C14/Model.vo
+theories/C14/Spec.vio: theories/C14/Spec.v theories/Base/Bytes.vio theories/Base/Res.vio theories/C14/Model.vio
+theories/C14/Spec.vos theories/C14/Spec.vok theories/C14/Spec.required_vos: theories/C14/Spec.v theories/Base/Bytes.vos theories/Base/Res.vos theories/C14/Model.vos
+theories/C16/LineFacts.vo theories/C16/LineFacts.glob theories/C16/LineFacts.v.beautified theories/C16/LineFacts.required_vo: theories/C16/LineFacts.v theories/Base/Bytes.vo theories/Base/Res.vo theories/C16/Model.vo
+theories/C16/LineFacts.vio: theories/C16/LineFacts.v theories/Base/Bytes.vio theories/Base/Res.vio theories/C16/Model.vio
+theories/C16/LineFacts.vos theories/C16/LineFacts.vok theories/C16/LineFacts.required_vos: theories/C16/LineFacts.v theories/Base/Bytes.vos theories/Base/Res.vos theories/C16/Model.vos
+theories/C16/Model.vo theories/C16/Model.glob theories/C16/Model.v.beautified theories/C16/Model.required_vo: theories/C16/Model.v theories/Base/Bytes.vo theories/Base/Res.vo
+theories/C16/Model.vio: theories/C16/Model.v theories/Base/Bytes.vio theories/Base/Res.vio
+theories/C16/Model.vos theories/C16/Model.vok theories/C16/Model.required_vos: theories/C16/Model.v theories/Base/Bytes.vos theories/Base/Res.vos
+theories/C16/Run.vo theories/C16/Run.glob theories/C16/Run.v.beautified theories/C16/Run.required_vo: theories/C16/Run.v theories/Base/Bytes.vo theories/Base/Res.vo theories/C16/Model.vo theories/C16/Wire.vo theories/C16/Spec.vo
+theories/C16/Run.vio: theories/C16/Run.v theories/Base/Bytes.vio theories/Base/Res.vio theories/C16/Model.vio theories/C16/Wire.vio theories/C16/Spec.vio
+theories/C16/Run.vos theories/C16/Run.vok theories/C16/Run.required_vos: theories/C16/Run.v theories/Base/Bytes.vos theories/Base/Res.vos theories/C16/Model.vos theories/C16/Wire.vos theories/C16/Spec.vos
+theories/C16/Spec.vo theories/C16/Spec.glob theories/C16/Spec.v.beautified theories/C16/Spec.required_vo: theories/C16/Spec.v theories/Base/Bytes.vo theories/C16/Model.vo
+theories/C16/Spec.vio: theories/C16/Spec.v theories/Base/Bytes.vio theories/C16/Model.vio
+theories/C16/Spec.vos theories/C16/Spec.vok theories/C16/Spec.required_vos: theories/C16/Spec.v theories/Base/Bytes.vos theories/C16/Model.vos
+theories/C16/SplitProofs.vo theories/C16/SplitProofs.glob theories/C16/SplitProofs.v.beautified theories/C16/SplitProofs.required_vo: theories/C16/SplitProofs.v theories/Base/Bytes.vo theories/Base/Res.vo theories/C16/Model.vo theories/C16/LineFacts.vo
+theories/C16/SplitProofs.vio: theories/C16/SplitProofs.v theories/Base/Bytes.vio theories/Base/Res.vio theories/C16/Model.vio theories/C16/LineFacts.vio
+theories/C16/SplitProofs.vos theories/C16/SplitProofs.vok theories/C16/SplitProofs.required_vos: theories/C16/SplitProofs.v theories/Base/Bytes.vos theories/Base/Res.vos theories/C16/Model.vos theories/C16/LineFacts.vos
+theories/C16/Wire.vo theories/C16/Wire.glob theories/C16/Wire.v.beautified theories/C16/Wire.required_vo: theories/C16/Wire.v theories/Base/Bytes.vo theories/Base/Res.vo theories/C16/Model.vo
+theories/C16/Wire.vio: theories/C16/Wire.v theories/Base/Bytes.vio theories/Base/Res.vio theories/C16/Model.vio
+theories/C16/Wire.vos theories/C16/Wire.vok theories/C16/Wire.required_vos: theories/C16/Wire.v theories/Base/Bytes.vos theories/Base/Res.vos theories/C16/Model.vos
+theories/C17/Model.vo theories/C17/Model.glob theories/C17/Model.v.beautified theories/C17/Model.required_vo: theories/C17/Model.v theories/Base/Bytes.vo theories/Base/Res.vo theories/C16/Model.vo
+theories/C17/Model.vio: theories/C17/Model.v theories/Base/Bytes.vio theories/Base/Res.vio theories/C16/Model.vio
+theories/C17/Model.vos theories/C17/Model.vok theories/C17/Model.required_vos: theories/C17/Model.v theories/Base/Bytes.vos theories/Base/Res.vos theories/C16/Model.vos
+theories/C17/Run.vo theories/C17/Run.glob theories/C17/Run.v.beautified theories/C17/Run.required_vo: theories/C17/Run.v theories/Base/Bytes.vo theories/Base/Res.vo theories/C16/Model.vo theories/C16/Wire.vo theories/C17/Model.vo
+theories/C17/Run.vio: theories/C17/Run.v theories/Base/Bytes.vio theories/Base/Res.vio theories/C16/Model.vio theories/C16/Wire.vio theories/C17/Model.vio
+theories/C17/Run.vos theories/C17/Run.vok theories/C17/Run.required_vos: theories/C17/Run.v theories/Base/Bytes.vos theories/Base/Res.vos theories/C16/Model.vos theories/C16/Wire.vos theories/C17/Model.vos
+theories/C21/Model.vo theories/C21/Model.glob theories/C21/Model.v.beautified theories/C21/Model.required_vo: theories/C21/Model.v theories/Base/Bytes.vo theories/Base/Res.vo theories/C10/Model.vo
+theories/C21/Model.vio: theories/C21/Model.v theories/Base/Bytes.vio theories/Base/Res.vio theories/C10/Model.vio
+theories/C21/Model.vos theories/C21/Model.vok theories/C21/Model.required_vos: theories/C21/Model.v theories/Base/Bytes.vos theories/Base/Res.vos theories/C10/Model.vos
+theories/C21/Proofs.vo theories/C21/Proofs.glob theories/C21/Proofs.v.beautified theories/C21/Proofs.required_vo: theories/C21/Proofs.v theories/Base/Bytes.vo theories/Base/Res.vo theories/Base/WinnowFacts.vo theories/C10/Model.vo theories/C10/Spec.vo theories/C10/Proofs.vo theories/C21/Model.vo theories/C21/Spec.vo
+theories/C21/Proofs.vio: theories/C21/Proofs.v theories/Base/Bytes.vio theories/Base/Res.vio theories/Base/WinnowFacts.vio theories/C10/Model.vio theories/C10/Spec.vio theories/C10/Proofs.vio theories/C21/Model.vio theories/C21/Spec.vio
+theories/C21/Proofs.vos theories/C21/Proofs.vok theories/C21/Proofs.required_vos: theories/C21/Proofs.v theories/Base/Bytes.vos theories/Base/Res.vos theories/Base/WinnowFacts.vos theories/C10/Model.vos theories/C10/Spec.vos theories/C10/Proofs.vos theories/C21/Model.vos theories/C21/Spec.vos
+theories/C21/Run.vo theories/C21/Run.glob theories/C21/Run.v.beautified theories/C21/Run.required_vo: theories/C21/Run.v theories/Base/Bytes.vo theories/Base/Res.vo theories/C21/Model.vo theories/C21/Spec.vo
+theories/C21/Run.vio: theories/C21/Run.v theories/Base/Bytes.vio theories/Base/Res.vio theories/C21/Model.vio theories/C21/Spec.vio
+theories/C21/Run.vos theories/C21/Run.vok theories/C21/Run.required_vos: theories/C21/Run.v theories/Base/Bytes.vos theories/Base/Res.vos theories/C21/Model.vos theories/C21/Spec.vos
+theories/C21/Spec.vo theories/C21/Spec.glob theories/C21/Spec.v.beautified theories/C21/Spec.required_vo: theories/C21/Spec.v theories/Base/Bytes.vo theories/C10/Spec.vo theories/C21/Model.vo
+theories/C21/Spec.vio: theories/C21/Spec.v theories/Base/Bytes.vio theories/C10/Spec.vio theories/C21/Model.vio
+theories/C21/Spec.vos theories/C21/Spec.vok theories/C21/Spec.required_vos: theories/C21/Spec.v theories/Base/Bytes.vos theories/C10/Spec.vos theories/C21/Model.vos
+theories/C22/Facts.vo theories/C22/Facts.glob theories/C22/Facts.v.beautified theories/C22/Facts.required_vo: theories/C22/Facts.v theories/Base/Bytes.vo theories/Base/Res.vo theories/Base/WinnowFacts.vo theories/C10/Model.vo theories/C10/Spec.vo theories/C10/Proofs.vo theories/C21/Model.vo theories/C22/Model.vo theories/C22/Spec.vo
+theories/C22/Facts.vio: theories/C22/Facts.v theories/Base/Bytes.vio theories/Base/Res.vio theories/Base/WinnowFacts.vio theories/C10/Model.vio theories/C10/Spec.vio theories/C10/Proofs.vio theories/C21/Model.vio theories/C22/Model.vio theories/C22/Spec.vio
+theories/C22/Facts.vos theories/C22/Facts.vok theories/C22/Facts.required_vos: theories/C22/Facts.v theories/Base/Bytes.vos theories/Base/Res.vos theories/Base/WinnowFacts.vos theories/C10/Model.vos theories/C10/Spec.vos theories/C10/Proofs.vos theories/C21/Model.vos theories/C22/Model.vos theories/C22/Spec.vos
+theories/C22/Model.vo theories/C22/Model.glob theories/C22/Model.v.beautified theories/C22/Model.required_vo: theories/C22/Model.v theories/Base/Bytes.vo theories/Base/Res.vo theories/C21/Model.vo
+theories/C22/Model.vio: theories/C22/Model.v theories/Base/Bytes.vio theories/Base/Res.vio theories/C21/Model.vio
+theories/C22/Model.vos theories/C22/Model.vok theories/C22/Model.required_vos: theories/C22/Model.v theories/Base/Bytes.vos theories/Base/Res.vos theories/C21/Model.vos
+theories/C22/Proofs.vo theories/C22/Proofs.glob theories/C22/Proofs.v.beautified theories/C22/Proofs.required_vo: theories/C22/Proofs.v theories/Base/Bytes.vo theories/Base/Res.vo theories/Base/WinnowFacts.vo theories/C10/Model.vo theories/C10/Proofs.vo theories/C21/Model.vo theories/C22/Model.vo theories/C22/Spec.vo theories/C22/Facts.vo
+theories/C22/Proofs.vio: theories/C22/Proofs.v theories/Base/Bytes.vio theories/Base/Res.vio theories/Base/WinnowFacts.vio theories/C10/Model.vio theories/C10/Proofs.vio theories/C21/Model.vio theories/C22/Model.vio theories/C22/Spec.vio theories/C22/Facts.vio
+theories/C22/Proofs.vos theories/C22/Proofs.vok theories/C22/Proofs.required_vos: theories/C22/Proofs.v theories/Base/Bytes.vos theories/Base/Res.vos theories/Base/WinnowFacts.vos theories/C10/Model.vos theories/C10/Proofs.vos theories/C21/Model.vos theories/C22/Model.vos theories/C22/Spec.vos theories/C22/Facts.vos
+theories/C22/Run.vo theories/C22/Run.glob theories/C22/Run.v.beautified theories/C22/Run.required_vo: theories/C22/Run.v theories/Base/Bytes.vo theories/Base/Res.vo theories/C21/Model.vo theories/C21/Run.vo theories/C22/Model.vo theories/C22/Spec.vo
+theories/C22/Run.vio: theories/C22/Run.v theories/Base/Bytes.vio theories/Base/Res.vio theories/C21/Model.vio theories/C21/Run.vio theories/C22/Model.vio theories/C22/Spec.vio
+theories/C22/Run.vos theories/C22/Run.vok theories/C22/Run.required_vos: theories/C22/Run.v theories/Base/Bytes.vos theories/Base/Res.vos theories/C21/Model.vos theories/C21/Run.vos theories/C22/Model.vos theories/C22/Spec.vos
+theories/C22/Spec.vo theories/C22/Spec.glob theories/C22/Spec.v.beautified theories/C22/Spec.required_vo: theories/C22/Spec.v theories/Base/Bytes.vo theories/C21/Model.vo
+theories/C22/Spec.vio: theories/C22/Spec.v theories/Base/Bytes.vio theories/C21/Model.vio
+theories/C22/Spec.vos theories/C22/Spec.vok theories/C22/Spec.required_vos: theories/C22/Spec.v theories/Base/Bytes.vos theories/C21/Model.vos
+theories/C23/Codec.vo theories/C23/Codec.glob theories/C23/Codec.v.beautified theories/C23/Codec.required_vo: theories/C23/Codec.v theories/Base/Bytes.vo theories/Base/Res.vo theories/Base/WinnowFacts.vo theories/C23/Dec.vo theories/C23/Model.vo theories/C23/Spec.vo
+theories/C23/Codec.vio: theories/C23/Codec.v theories/Base/Bytes.vio theories/Base/Res.vio theories/Base/WinnowFacts.vio theories/C23/Dec.vio theories/C23/Model.vio theories/C23/Spec.vio
+theories/C23/Codec.vos theories/C23/Codec.vok theories/C23/Codec.required_vos: theories/C23/Codec.v theories/Base/Bytes.vos theories/Base/Res.vos theories/Base/WinnowFacts.vos theories/C23/Dec.vos theories/C23/Model.vos theories/C23/Spec.vos
+theories/C23/Dec.vo theories/C23/Dec.glob theories/C23/Dec.v.beautified theories/C23/Dec.required_vo: theories/C23/Dec.v theories/Base/Bytes.vo
+theories/C23/Dec.vio: theories/C23/Dec.v theories/Base/Bytes.vio
+theories/C23/Dec.vos theories/C23/Dec.vok theories/C23/Dec.required_vos: theories/C23/Dec.v theories/Base/Bytes.vos
+theories/C23/Interp.vo theories/C23/Interp.glob theories/C23/Interp.v.beautified theories/C23/Interp.required_vo: theories/C23/Interp.v theories/Base/Bytes.vo theories/Base/Res.vo theories/Base/WinnowFacts.vo theories/C23/Dec.vo theories/C23/Model.vo theories/C23/Spec.vo theories/C23/Codec.vo theories/C23/Skeleton.vo
+theories/C23/Interp.vio: theories/C23/Interp.v theories/Base/Bytes.vio theories/Base/Res.vio theories/Base/WinnowFacts.vio theories/C23/Dec.vio theories/C23/Model.vio theories/C23/Spec.vio theories/C23/Codec.vio theories/C23/Skeleton.vio
+theories/C23/Interp.vos theories/C23/Interp.vok theories/C23/Interp.required_vos: theories/C23/Interp.v theories/Base/Bytes.vos theories/Base/Res.vos theories/Base/WinnowFacts.vos theories/C23/Dec.vos theories/C23/Model.vos theories/C23/Spec.vos theories/C23/Codec.vos theories/C23/Skeleton.vos
+theories/C23/Known.vo theories/C23/Known.glob theories/C23/Known.v.beautified theories/C23/Known.required_vo: theories/C23/Known.v theories/Base/Bytes.vo theories/Base/Res.vo theories/C23/Dec.vo theories/C23/Model.vo theories/C23/Spec.vo
+theories/C23/Known.vio: theories/C23/Known.v theories/Base/Bytes.vio theories/Base/Res.vio theories/C23/Dec.vio theories/C23/Model.vio theories/C23/Spec.vio
+theories/C23/Known.vos theories/C23/Known.vok theories/C23/Known.required_vos: theories/C23/Known.v theories/Base/Bytes.vos theories/Base/Res.vos theories/C23/Dec.vos theories/C23/Model.vos theories/C23/Spec.vos
+theories/C23/Model.vo theories/C23/Model.glob theories/C23/Model.v.beautified theories/C23/Model.required_vo: theories/C23/Model.v theories/Base/Bytes.vo theories/Base/Res.vo theories/C23/Dec.vo
+theories/C23/Model.vio: theories/C23/Model.v theories/Base/Bytes.vio theories/Base/Res.vio theories/C23/Dec.vio
+theories/C23/Model.vos theories/C23/Model.vok theories/C23/Model.required_vos: theories/C23/Model.v theories/Base/Bytes.vos theories/Base/Res.vos theories/C23/Dec.vos
+theories/C23/Proofs.vo theories/C23/Proofs.glob theories/C23/Proofs.v.beautified theories/C23/Proofs.required_vo: theories/C23/Proofs.v theories/Base/Bytes.vo theories/Base/Res.vo theories/Base/WinnowFacts.vo theories/C23/Dec.vo theories/C23/Model.vo theories/C23/Spec.vo theories/C23/Known.vo theories/C23/Codec.vo theories/C23/Skeleton.vo theories/C23/Interp.vo
+theories/C23/Proofs.vio: theories/C23/Proofs.v theories/Base/Bytes.vio theories/Base/Res.vio theories/Base/WinnowFacts.vio theories/C23/Dec.vio theories/C23/Model.vio theories/C23/Spec.vio theories/C23/Known.vio theories/C23/Codec.vio theories/C23/Skeleton.vio theories/C23/Interp.vio
+theories/C23/Proofs.vos theories/C23/Proofs.vok theories/C23/Proofs.required_vos: theories/C23/Proofs.v theories/Base/Bytes.vos theories/Base/Res.vos theories/Base/WinnowFacts.vos theories/C23/Dec.vos theories/C23/Model.vos theories/C23/Spec.vos theories/C23/Known.vos theories/C23/Codec.vos theories/C23/Skeleton.vos theories/C23/Interp.vos
+theories/C23/Run.vo theories/C23/Run.glob theories/C23/Run.v.beautified theories/C23/Run.required_vo: theories/C23/Run.v theories/Base/Bytes.vo theories/Base/Res.vo theories/C23/Dec.vo theories/C23/Model.vo theories/C23/Spec.vo theories/C23/Known.vo
+theories/C23/Run.vio: theories/C23/Run.v theories/Base/Bytes.vio theories/Base/Res.vio theories/C23/Dec.vio theories/C23/Model.vio theories/C23/Spec.vio theories/C23/Known.vio
+theories/C23/Run.vos theories/C23/Run.vok theories/C23/Run.required_vos: theories/C23/Run.v theories/Base/Bytes.vos theories/Base/Res.vos theories/C23/Dec.vos theories/C23/Model.vos theories/C23/Spec.vos theories/C23/Known.vos
+theories/C23/Skeleton.vo theories/C23/Skeleton.glob theories/C23/Skeleton.v.beautified theories/C23/Skeleton.required_vo: theories/C23/Skeleton.v theories/Base/Bytes.vo theories/Base/Res.vo theories/Base/WinnowFacts.vo theories/C23/Dec.vo theories/C23/Model.vo theories/C23/Spec.vo theories/C23/Codec.vo
+theories/C23/Skeleton.vio: theories/C23/Skeleton.v theories/Base/Bytes.vio theories/Base/Res.vio theories/Base/WinnowFacts.vio theories/C23/Dec.vio theories/C23/Model.vio theories/C23/Spec.vio theories/C23/Codec.vio
+theories/C23/Skeleton.vos theories/C23/Skeleton.vok theories/C23/Skeleton.required_vos: theories/C23/Skeleton.v theories/Base/Bytes.vos theories/Base/Res.vos theories/Base/WinnowFacts.vos theories/C23/Dec.vos theories/C23/Model.vos theories/C23/Spec.vos theories/C23/Codec.vos
+theories/C23/Spec.vo theories/C23/Spec.glob theories/C23/Spec.v.beautified theories/C23/Spec.required_vo: theories/C23/Spec.v theories/Base/Bytes.vo theories/Base/Res.vo theories/C23/Dec.vo theories/C23/Model.vo
+theories/C23/Spec.vio: theories/C23/Spec.v theories/Base/Bytes.vio theories/Base/Res.vio theories/C23/Dec.vio theories/C23/Model.vio
+theories/C23/Spec.vos theories/C23/Spec.vok theories/C23/Spec.required_vos: theories/C23/Spec.v theories/Base/Bytes.vos theories/Base/Res.vos theories/C23/Dec.vos theories/C23/Model.vos
+theories/C24/Facts.vo theories/C24/Facts.glob theories/C24/Facts.v.beautified theories/C24/Facts.required_vo: theories/C24/Facts.v theories/Base/Bytes.vo theories/Base/Res.vo theories/Base/WinnowFacts.vo theories/C24/Ops.vo theories/C24/Model.vo
+theories/C24/Facts.vio: theories/C24/Facts.v theories/Base/Bytes.vio theories/Base/Res.vio theories/Base/WinnowFacts.vio theories/C24/Ops.vio theories/C24/Model.vio
+theories/C24/Facts.vos theories/C24/Facts.vok theories/C24/Facts.required_vos: theories/C24/Facts.v theories/Base/Bytes.vos theories/Base/Res.vos theories/Base/WinnowFacts.vos theories/C24/Ops.vos theories/C24/Model.vos
+theories/C24/Model.vo theories/C24/Model.glob theories/C24/Model.v.beautified theories/C24/Model.required_vo: theories/C24/Model.v theories/Base/Bytes.vo theories/Base/Res.vo theories/C24/Ops.vo
+theories/C24/Model.vio: theories/C24/Model.v theories/Base/Bytes.vio theories/Base/Res.vio theories/C24/Ops.vio
+theories/C24/Model.vos theories/C24/Model.vok theories/C24/Model.required_vos: theories/C24/Model.v theories/Base/Bytes.vos theories/Base/Res.vos theories/C24/Ops.vos
+theories/C24/Ops.vo theories/C24/Ops.glob theories/C24/Ops.v.beautified theories/C24/Ops.required_vo: theories/C24/Ops.v theories/Base/Bytes.vo
+theories/C24/Ops.vio: theories/C24/Ops.v theories/Base/Bytes.vio
+theories/C24/Ops.vos theories/C24/Ops.vok theories/C24/Ops.required_vos: theories/C24/Ops.v theories/Base/Bytes.vos
+theories/C24/Proofs.vo theories/C24/Proofs.glob theories/C24/Proofs.v.beautified theories/C24/Proofs.required_vo: theories/C24/Proofs.v theories/Base/Bytes.vo theories/Base/Res.vo theories/Base/WinnowFacts.vo theories/C24/Ops.vo theories/C24/Model.vo theories/C24/Spec.vo theories/C24/Facts.vo
+theories/C24/Proofs.vio: theories/C24/Proofs.v theories/Base/Bytes.vio theories/Base/Res.vio theories/Base/WinnowFacts.vio theories/C24/Ops.vio theories/C24/Model.vio theories/C24/Spec.vio theories/C24/Facts.vio
+theories/C24/Proofs.vos theories/C24/Proofs.vok theories/C24/Proofs.required_vos: theories/C24/Proofs.v theories/Base/Bytes.vos theories/Base/Res.vos theories/Base/WinnowFacts.vos theories/C24/Ops.vos theories/C24/Model.vos theories/C24/Spec.vos theories/C24/Facts.vos
+theories/C24/Run.vo theories/C24/Run.glob theories/C24/Run.v.beautified theories/C24/Run.required_vo: theories/C24/Run.v theories/Base/Bytes.vo theories/Base/Res.vo theories/C24/Ops.vo theories/C24/Model.vo theories/C24/Spec.vo
+theories/C24/Run.vio: theories/C24/Run.v theories/Base/Bytes.vio theories/Base/Res.vio theories/C24/Ops.vio theories/C24/Model.vio theories/C24/Spec.vio
+theories/C24/Run.vos theories/C24/Run.vok theories/C24/Run.required_vos: theories/C24/Run.v theories/Base/Bytes.vos theories/Base/Res.vos theories/C24/Ops.vos theories/C24/Model.vos theories/C24/Spec.vos
+theories/C24/Spec.vo theories/C24/Spec.glob theories/C24/Spec.v.beautified theories/C24/Spec.required_vo: theories/C24/Spec.v theories/Base/Bytes.vo theories/C24/Ops.vo
+theories/C24/Spec.vio: theories/C24/Spec.v theories/Base/Bytes.vio theories/C24/Ops.vio
+theories/C24/Spec.vos theories/C24/Spec.vok theories/C24/Spec.required_vos: theories/C24/Spec.v theories/Base/Bytes.vos theories/C24/Ops.vos
+theories/C25/Model.vo theories/C25/Model.glob theories/C25/Model.v.beautified theories/C25/Model.required_vo: theories/C25/Model.v theories/Base/Bytes.vo theories/Base/Res.vo theories/C24/Ops.vo theories/C24/Model.vo
+theories/C25/Model.vio: theories/C25/Model.v theories/Base/Bytes.vio theories/Base/Res.vio theories/C24/Ops.vio theories/C24/Model.vio
+theories/C25/Model.vos theories/C25/Model.vok theories/C25/Model.required_vos: theories/C25/Model.v theories/Base/Bytes.vos theories/Base/Res.vos theories/C24/Ops.vos theories/C24/Model.vos
+theories/C25/Run.vo theories/C25/Run.glob theories/C25/Run.v.beautified theories/C25/Run.required_vo: theories/C25/Run.v theories/Base/Bytes.vo theories/Base/Res.vo theories/C24/Ops.vo theories/C24/Model.vo theories/C24/Run.vo theories/C25/Model.vo theories/C25/Spec.vo
+theories/C25/Run.vio: theories/C25/Run.v theories/Base/Bytes.vio theories/Base/Res.vio theories/C24/Ops.vio theories/C24/Model.vio theories/C24/Run.vio theories/C25/Model.vio theories/C25/Spec.vio
+theories/C25/Run.vos theories/C25/Run.vok theories/C25/Run.required_vos: theories/C25/Run.v theories/Base/Bytes.vos theories/Base/Res.vos theories/C24/Ops.vos theories/C24/Model.vos theories/C24/Run.vos theories/C25/Model.vos theories/C25/Spec.vos
+theories/C25/Spec.vo theories/C25/Spec.glob theories/C25/Spec.v.beautified theories/C25/Spec.required_vo: theories/C25/Spec.v theories/Base/Bytes.vo theories/C24/Ops.vo
+theories/C25/Spec.vio: theories/C25/Spec.v theories/Base/Bytes.vio theories/C24/Ops.vio
+theories/C25/Spec.vos theories/C25/Spec.vok theories/C25/Spec.required_vos: theories/C25/Spec.v theories/Base/Bytes.vos theories/C24/Ops.vos
+theories/DBus/De.vo theories/DBus/De.glob theories/DBus/De.v.beautified theories/DBus/De.required_vo: theories/DBus/De.v theories/Base/Bytes.vo theories/Base/Res.vo theories/Base/Sig.vo theories/Base/SigParse.vo theories/Base/Utf8.vo theories/DBus/Val.vo theories/DBus/Spec.vo theories/DBus/Ser.vo
+theories/DBus/De.vio: theories/DBus/De.v theories/Base/Bytes.vio theories/Base/Res.vio theories/Base/Sig.vio theories/Base/SigParse.vio theories/Base/Utf8.vio theories/DBus/Val.vio theories/DBus/Spec.vio theories/DBus/Ser.vio
+theories/DBus/De.vos theories/DBus/De.vok theories/DBus/De.required_vos: theories/DBus/De.v theories/Base/Bytes.vos theories/Base/Res.vos theories/Base/Sig.vos theories/Base/SigParse.vos theories/Base/Utf8.vos theories/DBus/Val.vos theories/DBus/Spec.vos theories/DBus/Ser.vos
+theories/DBus/Run.vo theories/DBus/Run.glob theories/DBus/Run.v.beautified theories/DBus/Run.required_vo: theories/DBus/Run.v theories/Base/Bytes.vo theories/Base/Res.vo theories/Base/Sig.vo theories/Base/SigParse.vo theories/Base/Utf8.vo theories/DBus/Val.vo theories/DBus/Spec.vo theories/DBus/Ser.vo theories/DBus/De.vo
+theories/DBus/Run.vio: theories/DBus/Run.v theories/Base/Bytes.vio theories/Base/Res.vio theories/Base/Sig.vio theories/Base/SigParse.vio theories/Base/Utf8.vio theories/DBus/Val.vio theories/DBus/Spec.vio theories/DBus/Ser.vio theories/DBus/De.vio
+theories/DBus/Run.vos theories/DBus/Run.vok theories/DBus/Run.required_vos: theories/DBus/Run.v theories/Base/Bytes.vos theories/Base/Res.vos theories/Base/Sig.vos theories/Base/SigParse.vos theories/Base/Utf8.vos theories/DBus/Val.vos theories/DBus/Spec.vos theories/DBus/Ser.vos theories/DBus/De.vos
+theories/DBus/Ser.vo theories/DBus/Ser.glob theories/DBus/Ser.v.beautified theories/DBus/Ser.required_vo: theories/DBus/Ser.v theories/Base/Bytes.vo theories/Base/Res.vo theories/Base/Sig.vo theories/Base/SigParse.vo theories/DBus/Val.vo theories/DBus/Spec.vo
+theories/DBus/Ser.vio: theories/DBus/Ser.v theories/Base/Bytes.vio theories/Base/Res.vio theories/Base/Sig.vio theories/Base/SigParse.vio theories/DBus/Val.vio theories/DBus/Spec.vio
+theories/DBus/Ser.vos theories/DBus/Ser.vok theories/DBus/Ser.required_vos: theories/DBus/Ser.v theories/Base/Bytes.vos theories/Base/Res.vos theories/Base/Sig.vos theories/Base/SigParse.vos theories/DBus/Val.vos theories/DBus/Spec.vos
+theories/DBus/Spec.vo theories/DBus/Spec.glob theories/DBus/Spec.v.beautified theories/DBus/Spec.required_vo: theories/DBus/Spec.v theories/Base/Bytes.vo theories/Base/Sig.vo theories/Base/SigParse.vo theories/Base/Utf8.vo theories/DBus/Val.vo
+theories/DBus/Spec.vio: theories/DBus/Spec.v theories/Base/Bytes.vio theories/Base/Sig.vio theories/Base/SigParse.vio theories/Base/Utf8.vio theories/DBus/Val.vio
+theories/DBus/Spec.vos theories/DBus/Spec.vok theories/DBus/Spec.required_vos: theories/DBus/Spec.v theories/Base/Bytes.vos theories/Base/Sig.vos theories/Base/SigParse.vos theories/Base/Utf8.vos theories/DBus/Val.vos
+theories/DBus/Val.vo theories/DBus/Val.glob theories/DBus/Val.v.beautified theories/DBus/Val.required_vo: theories/DBus/Val.v theories/Base/Bytes.vo theories/Base/Sig.vo theories/Base/SigParse.vo
+theories/DBus/Val.vio: theories/DBus/Val.v theories/Base/Bytes.vio theories/Base/Sig.vio theories/Base/SigParse.vio
+theories/DBus/Val.vos theories/DBus/Val.vok theories/DBus/Val.required_vos: theories/DBus/Val.v theories/Base/Bytes.vos theories/Base/Sig.vos theories/Base/SigParse.vos
+theories/Properties/C01.vo theories/Properties/C01.glob theories/Properties/C01.v.beautified theories/Properties/C01.required_vo: theories/Properties/C01.v theories/Base/Bytes.vo theories/DBus/Spec.vo
+theories/Properties/C01.vio: theories/Properties/C01.v theories/Base/Bytes.vio theories/DBus/Spec.vio
+theories/Properties/C01.vos theories/Properties/C01.vok theories/Properties/C01.required_vos: theories/Properties/C01.v theories/Base/Bytes.vos theories/DBus/Spec.vos
+theories/Properties/C02.vo theories/Properties/C02.glob theories/Properties/C02.v.beautified theories/Properties/C02.required_vo: theories/Properties/C02.v theories/Base/Bytes.vo theories/DBus/Spec.vo
+theories/Properties/C02.vio: theories/Properties/C02.v theories/Base/Bytes.vio theories/DBus/Spec.vio
+theories/Properties/C02.vos theories/Properties/C02.vok theories/Properties/C02.required_vos: theories/Properties/C02.v theories/Base/Bytes.vos theories/DBus/Spec.vos
+theories/Properties/C03.vo theories/Properties/C03.glob theories/Properties/C03.v.beautified theories/Properties/C03.required_vo: theories/Properties/C03.v theories/Base/Bytes.vo theories/DBus/Spec.vo
+theories/Properties/C03.vio: theories/Properties/C03.v theories/Base/Bytes.vio theories/DBus/Spec.vio
+theories/Properties/C03.vos theories/Properties/C03.vok theories/Properties/C03.required_vos: theories/Properties/C03.v theories/Base/Bytes.vos theories/DBus/Spec.vos
+theories/Properties/C04.vo theories/Properties/C04.glob theories/Properties/C04.v.beautified theories/Properties/C04.required_vo: theories/Properties/C04.v theories/Base/Bytes.vo theories/DBus/Spec.vo
+theories/Properties/C04.vio: theories/Properties/C04.v theories/Base/Bytes.vio theories/DBus/Spec.vio
+theories/Properties/C04.vos theories/Properties/C04.vok theories/Properties/C04.required_vos: theories/Properties/C04.v theories/Base/Bytes.vos theories/DBus/Spec.vos
+theories/Properties/C06.vo theories/Properties/C06.glob theories/Properties/C06.v.beautified theories/Properties/C06.required_vo: theories/Properties/C06.v theories/Base/Bytes.vo theories/C06/Spec.vo theories/C06/SpecFacts.vo
+theories/Properties/C06.vio: theories/Properties/C06.v theories/Base/Bytes.vio theories/C06/Spec.vio theories/C06/SpecFacts.vio
+theories/Properties/C06.vos theories/Properties/C06.vok theories/Properties/C06.required_vos: theories/Properties/C06.v theories/Base/Bytes.vos theories/C06/Spec.vos theories/C06/SpecFacts.vos
+theories/Properties/C07.vo theories/Properties/C07.glob theories/Properties/C07.v.beautified theories/Properties/C07.required_vo: theories/Properties/C07.v theories/Base/Bytes.vo theories/DBus/Spec.vo
+theories/Properties/C07.vio: theories/Properties/C07.v theories/Base/Bytes.vio theories/DBus/Spec.vio
+theories/Properties/C07.vos theories/Properties/C07.vok theories/Properties/C07.required_vos: theories/Properties/C07.v theories/Base/Bytes.vos theories/DBus/Spec.vos
+theories/Properties/C08.vo theories/Properties/C08.glob theories/Properties/C08.v.beautified theories/Properties/C08.required_vo: theories/Properties/C08.v theories/Base/Bytes.vo theories/Base/Res.vo theories/Base/Sig.vo theories/C08/Model.vo theories/C08/Spec.vo theories/C08/Proofs.vo
+theories/Properties/C08.vio: theories/Properties/C08.v theories/Base/Bytes.vio theories/Base/Res.vio theories/Base/Sig.vio theories/C08/Model.vio theories/C08/Spec.vio theories/C08/Proofs.vio
+theories/Properties/C08.vos theories/Properties/C08.vok theories/Properties/C08.required_vos: theories/Properties/C08.v theories/Base/Bytes.vos theories/Base/Res.vos theories/Base/Sig.vos theories/C08/Model.vos theories/C08/Spec.vos theories/C08/Proofs.vos
 theories/Properties/C10.vo theories/Properties/C10.glob theories/Properties/C10.v.beautified theories/Properties/C10.required_vo: theories/Properties/C10.v theories/Base/Bytes.vo theories/C10/Model.vo theories/C10/Spec.vo theories/C10/Proofs.vo
 theories/Properties/C10.vio: theories/Properties/C10.v theories/Base/Bytes.vio theories/C10/Model.vio theories/C10/Spec.vio theories/C10/Proofs.vio
 theories/Properties/C10.vos theories/Properties/C10.vok theories/Properties/C10.required_vos: theories/Properties/C10.v theories/Base/Bytes.vos theories/C10/Model.vos theories/C10/Spec.vos theories/C10/Proofs.vos
+theories/Properties/C14.vo theories/Properties/C14.glob theories/Properties/C14.v.beautified theories/Properties/C14.required_vo: theories/Properties/C14.v theories/Base/Bytes.vo theories/Base/Res.vo theories/C14/Model.vo theories/C14/Spec.vo theories/C14/Proofs.vo
+theories/Properties/C14.vio: theories/Properties/C14.v theories/Base/Bytes.vio theories/Base/Res.vio theories/C14/Model.vio theories/C14/Spec.vio theories/C14/Proofs.vio
+theories/Properties/C14.vos theories/Properties/C14.vok theories/Properties/C14.required_vos: theories/Properties/C14.v theories/Base/Bytes.vos theories/Base/Res.vos theories/C14/Model.vos theories/C14/Spec.vos theories/C14/Proofs.vos
+theories/Properties/C16.vo theories/Properties/C16.glob theories/Properties/C16.v.beautified theories/Properties/C16.required_vo: theories/Properties/C16.v theories/Base/Bytes.vo theories/C16/Model.vo
+theories/Properties/C16.vio: theories/Properties/C16.v theories/Base/Bytes.vio theories/C16/Model.vio
+theories/Properties/C16.vos theories/Properties/C16.vok theories/Properties/C16.required_vos: theories/Properties/C16.v theories/Base/Bytes.vos theories/C16/Model.vos
+theories/Properties/C17.vo theories/Properties/C17.glob theories/Properties/C17.v.beautified theories/Properties/C17.required_vo: theories/Properties/C17.v theories/Base/Bytes.vo theories/C16/Model.vo theories/C17/Model.vo
+theories/Properties/C17.vio: theories/Properties/C17.v theories/Base/Bytes.vio theories/C16/Model.vio theories/C17/Model.vio
+theories/Properties/C17.vos theories/Properties/C17.vok theories/Properties/C17.required_vos: theories/Properties/C17.v theories/Base/Bytes.vos theories/C16/Model.vos theories/C17/Model.vos
+theories/Properties/C21.vo theories/Properties/C21.glob theories/Properties/C21.v.beautified theories/Properties/C21.required_vo: theories/Properties/C21.v theories/Base/Bytes.vo theories/Base/Res.vo theories/C21/Model.vo theories/C21/Spec.vo theories/C21/Proofs.vo
+theories/Properties/C21.vio: theories/Properties/C21.v theories/Base/Bytes.vio theories/Base/Res.vio theories/C21/Model.vio theories/C21/Spec.vio theories/C21/Proofs.vio
+theories/Properties/C21.vos theories/Properties/C21.vok theories/Properties/C21.required_vos: theories/Properties/C21.v theories/Base/Bytes.vos theories/Base/Res.vos theories/C21/Model.vos theories/C21/Spec.vos theories/C21/Proofs.vos
+theories/Properties/C23.vo theories/Properties/C23.glob theories/Properties/C23.v.beautified theories/Properties/C23.required_vo: theories/Properties/C23.v theories/Base/Bytes.vo theories/Base/Res.vo theories/C23/Dec.vo theories/C23/Model.vo theories/C23/Spec.vo theories/C23/Known.vo theories/C23/Codec.vo theories/C23/Proofs.vo
+theories/Properties/C23.vio: theories/Properties/C23.v theories/Base/Bytes.vio theories/Base/Res.vio theories/C23/Dec.vio theories/C23/Model.vio theories/C23/Spec.vio theories/C23/Known.vio theories/C23/Codec.vio theories/C23/Proofs.vio
+theories/Properties/C23.vos theories/Properties/C23.vok theories/Properties/C23.required_vos: theories/Properties/C23.v theories/Base/Bytes.vos theories/Base/Res.vos theories/C23/Dec.vos theories/C23/Model.vos theories/C23/Spec.vos theories/C23/Known.vos theories/C23/Codec.vos theories/C23/Proofs.vos
+theories/Properties/C24.vo theories/Properties/C24.glob theories/Properties/C24.v.beautified theories/Properties/C24.required_vo: theories/Properties/C24.v theories/Base/Bytes.vo theories/Base/Res.vo theories/C24/Ops.vo theories/C24/Model.vo theories/C24/Spec.vo theories/C24/Proofs.vo
+theories/Properties/C24.vio: theories/Properties/C24.v theories/Base/Bytes.vio theories/Base/Res.vio theories/C24/Ops.vio theories/C24/Model.vio theories/C24/Spec.vio theories/C24/Proofs.vio
+theories/Properties/C24.vos theories/Properties/C24.vok theories/Properties/C24.required_vos: theories/Properties/C24.v theories/Base/Bytes.vos theories/Base/Res.vos theories/C24/Ops.vos theories/C24/Model.vos theories/C24/Spec.vos theories/C24/Proofs.vos
+theories/Properties/C25.vo theories/Properties/C25.glob theories/Properties/C25.v.beautified theories/Properties/C25.required_vo: theories/Properties/C25.v theories/Base/Bytes.vo theories/C24/Ops.vo theories/C24/Model.vo theories/C25/Model.vo theories/C25/Spec.vo
+theories/Properties/C25.vio: theories/Properties/C25.v theories/Base/Bytes.vio theories/C24/Ops.vio theories/C24/Model.vio theories/C25/Model.vio theories/C25/Spec.vio
+theories/Properties/C25.vos theories/Properties/C25.vok theories/Properties/C25.required_vos: theories/Properties/C25.v theories/Base/Bytes.vos theories/C24/Ops.vos theories/C24/Model.vos theories/C25/Model.vos theories/C25/Spec.vos
